@@ -384,7 +384,9 @@ def scheduleSlot (e : Env) (σ : St) (t : Nat) (w : Walk) : St × Walk × Bool :
 def advance (fwd : Bool) (w w1 : Walk) : Walk :=
   { w1 with
     firstBooked := if !fwd && w1.firstBooked.isNone && decide (w1.done > w.done) then some w1.cur else w1.firstBooked,
-    cur := w1.cur + (if fwd then 1 else -1) }
+    cur := w1.cur + (if fwd then 1 else -1),
+    -- the dependency bound lies inside the first slot only (`slotStartOffset = 0` after the first slot)
+    offset := 0 }
 
 /-- the `while self.scheduleSlot(): …` loop; the Bool is False for a run-away task -/
 def walkLoop (e : Env) (t : Nat) (fwd : Bool) : Nat → St → Walk → St × Walk × Bool
